@@ -1001,7 +1001,12 @@ fn main() {
          (sub-alphabets, fixpoint or depth bound, see coverage.grids), far (E-ENUM around the default maximum of one day, TTLs 2^31 / u32::MAX, \
          configured minima above one day). Seam family (E-ENUM, real time): CachingClient::lookup over a scripted upstream for every world of \
          direct / one-response / two-hop / three-hop alias chains, negative answers with SOA(ttl, minimum), chains to negative and failing \
-         targets, upstream failures, TTLs from {{0,1,2,(3,)9}}, preserve_intermediates on/off, re-looked-up at 0, 1.15, 2.15, 3.15 s. \
+         targets, upstream failures, TTLs from {{0,1,2,(3,)9}}; alias chains of 1/2/3 links with EVERY TTL assignment from {{1,2,300}} to the \
+         links and the terminal record x answer-section order (chain order / reversed / terminal first), in one response and split over two \
+         responses after every link, alias and every intermediate name looked up; preserve_intermediates on/off; re-looked-up at 0, 1.15, \
+         2.15, 3.15 s. The clause `alias-in-the-cached-response` / `alias-chain` (an answer produced from ONE upstream response is bounded by \
+         every alias link of that response, also when the CNAMEs are filtered out) rests on reading 'the entry's records' as the records of \
+         the cached response (hickory's documented intent, test cname_alias_bounds_cache_lifetime). \
          After every transition a fixed look-ahead probe sequence (12 offsets x probed queries incl. one foreign query) is executed and \
          judged. Oracle = vref::cache (acceptance model from the statement). Non-trivial = distinct (configuration, query, result, \
          hit/miss, age<L / =L / >L / L undefined) among judged gets on entries the model holds.",
